@@ -83,5 +83,6 @@ func (q *qpsLimiter) updateToken() {
 	} else {
 		v = v + q.once
 	}
+	verifGate("qps.update.loaded")
 	atomic.StoreInt32(&q.tokens, v)
 }
